@@ -21,17 +21,18 @@ R = "Seq[Tuple[Int,Int]]"
 specdef("ranges_ok", {"r": R, "l": "Lines", "upto": "Int"}, "Bool",
         "forall(lambda k: implies(0 <= k and k < len(r), 1 <= r[k][0] and r[k][0] <= r[k][1] and r[k][1] < upto and not blank(l, r[k][0]) and "
         "       implies(k > 0, r[k - 1][1] < r[k][0])))")
+specdef("sorted_ranges", {"r": R}, "Bool", "forall(lambda j, k: implies(0 <= j and j < k and k < len(r), r[j][1] < r[k][0]))")
 specdef("covered", {"r": R, "n": "Int"}, "Bool", "exists(lambda k: 0 <= k and k < len(r) and r[k][0] <= n and n <= r[k][1])")
 specdef("covers_upto", {"r": R, "l": "Lines", "upto": "Int"}, "Bool", "forall(lambda n: implies(1 <= n and n < upto and not blank(l, n), covered(r, n)))")
 contract("_CustomGenerator.__call__", source=M + "_CustomGenerator.__call__", params={"self": "_CustomGenerator"}, returns=R,
          modifies=["self.in_string", "self.open_count", "self.continuation"], raises={}, locals={"result": R},
-         ensures=["ranges_ok(result, self.lines, n_lines(self.lines) + 1)", "covers_upto(result, self.lines, n_lines(self.lines) + 1)"],
-         loops={1: {"inv": ["size == n_lines(self.lines)", "1 <= i and i <= size + 1", "ranges_ok(result, self.lines, i)", "covers_upto(result, self.lines, i)"],
+         ensures=["ranges_ok(result, self.lines, n_lines(self.lines) + 1)", "sorted_ranges(result)", "covers_upto(result, self.lines, n_lines(self.lines) + 1)"],
+         loops={1: {"inv": ["size == n_lines(self.lines)", "1 <= i and i <= size + 1", "ranges_ok(result, self.lines, i)", "sorted_ranges(result)", "covers_upto(result, self.lines, i)"],
                     "decreases": "size + 1 - i"},
-                2: {"inv": ["size == n_lines(self.lines)", "1 <= i and i <= size + 1", "ranges_ok(result, self.lines, i)", "covers_upto(result, self.lines, i)"],
+                2: {"inv": ["size == n_lines(self.lines)", "1 <= i and i <= size + 1", "ranges_ok(result, self.lines, i)", "sorted_ranges(result)", "covers_upto(result, self.lines, i)"],
                     "decreases": "size + 1 - i"},
                 3: {"inv": ["size == n_lines(self.lines)", "1 <= start and start <= i and i <= size", "not blank(self.lines, start)",
-                            "ranges_ok(result, self.lines, start)", "covers_upto(result, self.lines, start)"],
+                            "ranges_ok(result, self.lines, start)", "sorted_ranges(result)", "covers_upto(result, self.lines, start)"],
                     "decreases": "size - i"}},
          note="increasing, disjoint ranges inside the text, each starting on a non-blank line, together covering every non-blank line; terminates")
 
